@@ -308,7 +308,13 @@ func TestDocumentRespelling(t *testing.T) {
 	rapid.Check(t, func(t *rapid.T) {
 		var sp lib.Spec
 		var doc *ref.Value
-		if rapid.Bool().Draw(t, "family") {
+		if fam := rapid.IntRange(0, 2).Draw(t, "family"); fam == 2 {
+			// a type graph: user types, alternatives, key shortcuts (their keys are strings to re-spell too)
+			gc := gen.GenGraph(t, gen.GraphOpts{MaxTypes: 4, Recursion: true}, "g")
+			sp = specOf(gc.Print(nil), gc.G.KeysOptional)
+			doc = gc.Instance(t, gc.G.Root, gc.G.KeysOptional, 3, "inst")
+			run.Label("schema:type-graph")
+		} else if fam == 1 {
 			m := gen.ShapeSchema(t, gen.ShapeOpts{Depth: 3, Width: 3}, "m")
 			sp = lib.Spec{Schema: string(gen.PrintSchema(m, nil))}
 			doc = gen.ShapeInstance(t, m, false, "inst")
@@ -323,7 +329,7 @@ func TestDocumentRespelling(t *testing.T) {
 			return
 		}
 		if rapid.Bool().Draw(t, "mutate") {
-			doc, _ = gen.Mutate(t, doc, gen.KeyPoolC01, "mut")
+			doc, _ = gen.Mutate(t, doc, append([]string{"kab", "plain/key"}, gen.KeyPoolC01...), "mut")
 		}
 		a := gen.Print(doc, nil)
 		// respell: blanks, property order, escape spelling of every string and key
